@@ -719,6 +719,8 @@ class LMDBStorage(BaseStorage):
         """
         try:
             event.created_at.to_bytes(4, "big")
+            # the record itself (msgpack cannot hold every JSON number)
+            encode_event(event)
             longest = max(
                 len(key)
                 for name, index in INDEXES.items()
